@@ -61,6 +61,103 @@ func runC12(c *core.Ctx) {
 	c12OnBuffers(c, root)
 }
 
+// c12ReleasedReturn: the `return nil` inside readEdge's loop is the arm `case <-done:` of a select whose other arm forwards
+// the message, where done is a channel parameter that Consume passes and only ever closes by a deferred close — i.e. the reader
+// gives up a message only after Consume itself has returned (F104: before, the readers of a failed consumer leaked).
+func c12ReleasedReturn(info *types.Info, edge *packages.Package, fn *core.Func, ret *ast.ReturnStmt) bool {
+	var clause *ast.CommClause
+	ast.Inspect(fn.Decl.Body, func(n ast.Node) bool {
+		if cc, ok := n.(*ast.CommClause); ok && cc.Pos() <= ret.Pos() && ret.End() <= cc.End() {
+			clause = cc
+		}
+		return true
+	})
+	if clause == nil {
+		return false
+	}
+	if body := an.Effective(clause.Body); len(body) != 1 || body[0] != ast.Stmt(ret) {
+		return false
+	}
+	es, ok := clause.Comm.(*ast.ExprStmt)
+	if !ok {
+		return false
+	}
+	u, ok := ast.Unparen(es.X).(*ast.UnaryExpr)
+	if !ok || u.Op != token.ARROW {
+		return false
+	}
+	id, ok := ast.Unparen(u.X).(*ast.Ident)
+	if !ok {
+		return false
+	}
+	pv, _ := info.Uses[id].(*types.Var)
+	idx := -1
+	if fo, ok := info.Defs[fn.Decl.Name].(*types.Func); ok {
+		sig := fo.Type().(*types.Signature)
+		for i := 0; i < sig.Params().Len(); i++ {
+			if sig.Params().At(i) == pv {
+				idx = i
+			}
+		}
+	}
+	if idx < 0 {
+		return false
+	}
+	// every caller passes a channel it only closes by defer
+	callers := 0
+	good := true
+	for _, f := range core.AllFuncs(edge) {
+		ast.Inspect(f.Decl.Body, func(n ast.Node) bool {
+			call, ok := n.(*ast.CallExpr)
+			if !ok {
+				return true
+			}
+			if cal := core.Callee(info, call); cal == nil || cal.Name() != "readEdge" || core.RecvTypeName(cal) != "multiConsumer" {
+				return true
+			}
+			callers++
+			if idx >= len(call.Args) {
+				good = false
+				return true
+			}
+			aid, ok := ast.Unparen(call.Args[idx]).(*ast.Ident)
+			if !ok {
+				good = false
+				return true
+			}
+			obj := info.Uses[aid]
+			deferredClose := false
+			ast.Inspect(f.Decl.Body, func(m ast.Node) bool {
+				switch y := m.(type) {
+				case *ast.DeferStmt:
+					if core.IsBuiltin(info, y.Call, "close") && len(y.Call.Args) == 1 {
+						if cid, ok := y.Call.Args[0].(*ast.Ident); ok && info.Uses[cid] == obj {
+							deferredClose = true
+							return false
+						}
+					}
+				case *ast.CallExpr:
+					if core.IsBuiltin(info, y, "close") && len(y.Args) == 1 {
+						if cid, ok := y.Args[0].(*ast.Ident); ok && info.Uses[cid] == obj {
+							good = false // closed before the consumer returns
+						}
+					}
+				case *ast.SendStmt:
+					if cid, ok := ast.Unparen(y.Chan).(*ast.Ident); ok && info.Uses[cid] == obj {
+						good = false
+					}
+				}
+				return true
+			})
+			if !deferredClose {
+				good = false
+			}
+			return true
+		})
+	}
+	return callers > 0 && good
+}
+
 func c12Consumer(c *core.Ctx, edge *packages.Package) {
 	info := edge.TypesInfo
 	mr, _ := edge.Types.Scope().Lookup("MultiReceiver").(*types.TypeName)
@@ -116,7 +213,7 @@ func c12Consumer(c *core.Ctx, edge *packages.Package) {
 						}
 						return true
 					})
-					if inLoop {
+					if inLoop && !c12ReleasedReturn(info, edge, fn, x) {
 						early = "return nil"
 					}
 				}
@@ -135,6 +232,16 @@ func c12Consumer(c *core.Ctx, edge *packages.Package) {
 				for _, s := range cc.Body {
 					if _, ok := s.(*ast.SendStmt); ok {
 						hasDefault = true
+					}
+					// or the send is one arm of a select whose other arm is the consumer's release signal
+					if sel, ok := s.(*ast.SelectStmt); ok {
+						for _, cl := range sel.Body.List {
+							if cm, ok := cl.(*ast.CommClause); ok {
+								if snd, ok := cm.Comm.(*ast.SendStmt); ok && an.FieldSel(info, snd.Chan, "multiConsumer", "messages") {
+									hasDefault = true
+								}
+							}
+						}
 					}
 				}
 			}
